@@ -306,8 +306,10 @@ func c04History(t *testing.T, r *vRand, idx int) (string, map[string]interface{}
 		}
 	}
 	w := &c04World{env: env}
-	for _, k := range order {
+	pos := make([]int, len(order)) // configuration index -> case order
+	for ci, k := range order {
 		w.dirs = append(w.dirs, env.cfgDirs[k])
+		pos[k] = ci
 	}
 	nblk := 2 + r.Intn(2)
 	var datas [][]byte
@@ -343,8 +345,9 @@ func c04History(t *testing.T, r *vRand, idx int) (string, map[string]interface{}
 	// not change: they are what a wrong notion of "writable" would destroy)
 	now0 := time.Now()
 	plantedRO := false
-	for ci, dir := range w.dirs {
-		k := order[ci]
+	// (in configuration order, so that what is planted where does not depend on the mount order, which is
+	// Go's map iteration order inside makeRRVolumeManager and differs from run to run)
+	for k, dir := range env.cfgDirs {
 		guarded := ro[k] || (access != nil && (access[k].self == 2 || (access[k].self == 0 && access[k].other != 0)))
 		p := 3
 		if guarded {
@@ -454,19 +457,24 @@ func c04History(t *testing.T, r *vRand, idx int) (string, map[string]interface{}
 				}
 				// mtime: that of a stored copy (any volume), or off by 1 ns, or far away
 				var cands []int64
-				for _, l := range before {
-					for _, b := range l.blocks {
+				var candVol []int
+				for k := range env.cfgDirs { // configuration order, see the planting
+					vi := pos[k]
+					for _, b := range before[vi].blocks {
 						if b.hash == ih {
 							cands = append(cands, b.mtime)
+							candVol = append(candVol, vi)
 						}
 					}
 				}
 				var m int64
+				from := -1 // the volume (case order) whose copy's timestamp the item names
 				switch x := r.Intn(10); {
 				case kind == "TRASHMATCH" && len(cands) > 0:
-					m = cands[0]
+					m, from = cands[0], candVol[0]
 				case x < 7 && len(cands) > 0:
-					m = cands[r.Intn(len(cands))]
+					k := r.Intn(len(cands))
+					m, from = cands[k], candVol[k]
 				case x < 8 && len(cands) > 0:
 					m = cands[r.Intn(len(cands))] + int64(1-2*r.Intn(2))
 				case x < 9:
@@ -475,10 +483,12 @@ func c04History(t *testing.T, r *vRand, idx int) (string, map[string]interface{}
 					m = lo - int64(r.Intn(3000))*1e9
 				}
 				mount := ""
-				if r.Chance(1, 3) {
-					switch r.Intn(4) {
-					case 0:
+				if r.Chance(2, 5) {
+					switch x := r.Intn(6); {
+					case x == 0:
 						mount = "zzzzz-nyw5e-999999999999999"
+					case x < 4 && from >= 0:
+						mount = env.cfgUUIDs[order[from]] // the very volume that holds that copy
 					default:
 						mount = env.cfgUUIDs[r.Intn(len(env.cfgUUIDs))]
 					}
